@@ -409,7 +409,11 @@ class Interp:
             env.set(t.id, v)
             return
         if isinstance(t, (ast.Tuple, ast.List)):
-            vals = self.iterate(v, t)
+            if isinstance(v, Sym) and v.length is None and not any(isinstance(e, ast.Starred) for e in t.elts):
+                # an opaque value unpacked into k targets: its k components
+                vals = [self.index(v, i, None) for i in range(len(t.elts))]
+            else:
+                vals = self.iterate(v, t)
             star = [i for i, e in enumerate(t.elts) if isinstance(e, ast.Starred)]
             if star:
                 i = star[0]
@@ -967,7 +971,11 @@ def _b_dict(it, args, kw):
 
 def _b_enumerate(it, args, kw):
     start = args[1] if len(args) > 1 else kw.get('start', 0)
-    return [(i + start, x) for i, x in enumerate(it.iterate(args[0], None))]
+    try:
+        seq = it.iterate(args[0], None)
+    except Undecidable:
+        return Sym('enumerate(%s)' % show(args[0]), struct=('call', 'enumerate', tuple(args), dict(kw)))
+    return [(i + start, x) for i, x in enumerate(seq)]
 
 
 def _b_zip(it, args, kw):
